@@ -135,6 +135,65 @@ func (st *State) refs() []string {
 	return out
 }
 
+// everReferenced: some state any resource of the world ever had refers to rid.
+func (w *World) everReferenced(rid string) bool {
+	has := func(st *State) bool {
+		if st == nil {
+			return false
+		}
+		for _, x := range st.refs() {
+			if x == rid || w.s.canon(x) == w.s.canon(rid) {
+				return true
+			}
+		}
+		return false
+	}
+	for _, res := range w.Res {
+		for _, v := range res.V {
+			if has(v.Actual) || has(v.Announced) {
+				return true
+			}
+			for _, e := range v.Stream {
+				if has(e.After) {
+					return true
+				}
+			}
+		}
+	}
+	return false
+}
+
+// referencesAddedBefore counts the events that added a reference to rid to
+// some resource and reached the gateway (directly, or as part of a query or
+// re-fetch answer) before the event sequence number `at`.
+func (w *World) referencesAddedBefore(rid string, at uint64) int {
+	n := 0
+	for _, res := range w.Res {
+		for _, v := range res.V {
+			for _, e := range v.Stream {
+				if e.Kind == "snap" {
+					continue
+				}
+				switch {
+				case e.DlvCut >= 0 && e.DlvSeq < at:
+				case e.Derived && e.Via != nil && e.Via.Delivered && e.Via.DlvSeq < at:
+				default:
+					continue
+				}
+				if e.Val.isRef() && e.Val.RID == rid && e.Kind == "add" {
+					n++
+				}
+				for _, x := range e.Changed {
+					if x != nil && x.isRef() && x.RID == rid {
+						n++
+					}
+				}
+			}
+		}
+	}
+	return n
+}
+
 func sortedKeys[V any](m map[string]V) []string {
 	ks := make([]string, 0, len(m))
 	for k := range m {
